@@ -345,12 +345,15 @@ func main() {
 	only := fs.Int("only", 0, "worker: number of programs (0 = all)")
 	timeoutMs := fs.Int("timeout", 2000, "per-program watchdog in ms")
 	memMiB := fs.Int("mem", 1024, "heap ceiling per worker in MiB")
+	bits := fs.Int("bits", 28, "sweep: all values below 2^bits (28 = the whole range)")
 	fs.Parse(os.Args[2:])
 	switch os.Args[1] {
 	case "run":
 		supervisor(*in, *out, *workers, *timeoutMs, *memMiB)
 	case "worker":
 		worker(*in, *out, *skip, *only, *timeoutMs, *memMiB)
+	case "sweep":
+		sweep(*bits)
 	default:
 		fatal("unknown command %q", os.Args[1])
 	}
